@@ -320,6 +320,7 @@ type HeapKey struct {
 	Name string
 	Sort string
 	Ref  string // "ptr" / "slice": the cells hold references (pointer, map, chan / slice header); "" otherwise
+	Pkg  string // field heaps: import path of the package that declares the struct type ("" otherwise / unknown)
 }
 
 // refKind: how a value of type t carries an object reference.
@@ -339,7 +340,11 @@ func (s *Sorts) heapField(t types.Type, u *types.Struct, i int) HeapKey {
 	if fn == "_" {
 		fn = fmt.Sprintf("blank%d", i)
 	}
-	return HeapKey{Name: fmt.Sprintf("F_%s_%s", tn, fn), Sort: fmt.Sprintf("(Array Int %s)", s.sortOf(u.Field(i).Type())), Ref: refKind(u.Field(i).Type())}
+	pk := ""
+	if n, ok := types.Unalias(t).(*types.Named); ok && n.Obj().Pkg() != nil {
+		pk = n.Obj().Pkg().Path()
+	}
+	return HeapKey{Name: fmt.Sprintf("F_%s_%s", tn, fn), Sort: fmt.Sprintf("(Array Int %s)", s.sortOf(u.Field(i).Type())), Ref: refKind(u.Field(i).Type()), Pkg: pk}
 }
 
 func (s *Sorts) heapObj(t types.Type) HeapKey {
